@@ -46,7 +46,9 @@ PolarGrid::PolarGrid(const double& R0, const double& Rmax, const int nr_exp, con
                      const double& refinement_radius, const int anisotropic_factor, const int divideBy2,
                      std::optional<double> splitting_radius)
 {
-    assert(R0 > 0.0 && Rmax > R0 && !equals(R0, Rmax));
+    if (!(R0 > 0.0 && Rmax > R0 && !equals(R0, Rmax))) {
+        throw std::invalid_argument("The radii of the domain must satisfy 0 < R0 < Rmax.");
+    }
     // Construct radii_ and angles_
     constructRadialDivisions(R0, Rmax, nr_exp, refinement_radius, anisotropic_factor);
     constructAngularDivisions(ntheta_exp, nr_);
